@@ -292,7 +292,7 @@ theorem setter_refines (ops : FOps) (σ : Setter) (r : Row) (y : Snap) (hr : rea
     | some w =>
       simp only [hn] at hw
       obtain ⟨o, ho, hro⟩ := hw
-      refine ⟨{ r with ovw := (o, []) }, by rw [ho]; rfl, ?_, henc⟩
+      refine ⟨{ r with ovw := (o, r.ovw.2) }, by rw [ho]; rfl, ?_, henc⟩
       refine (readSnap_of_duration ops _ d (by exact hd)).trans ?_
       simp only [snapWith, hro]
   | year v =>
